@@ -4,6 +4,8 @@
 (* page coordinate system.  One action per code step:                      *)
 (*   AParseBox     PDFPage._parse_mediabox / utils.parse_rect              *)
 (*   AParseRotate  PDFPage.__init__:  (int_value(Rotate) + 360) % 360      *)
+(*   AAddRotation  high_level.extract_text_to_fp: the `rotation` argument  *)
+(*                 is added to the page's Rotate, modulo 360               *)
 (*   ACtm90 / ACtm180 / ACtm270 / ACtmElse                                 *)
 (*                 the four branches of PDFPageInterpreter.process_page    *)
 (*   ABeginPage    PDFLayoutAnalyzer.begin_page (apply_matrix_rect, abs)   *)
@@ -32,12 +34,14 @@ CONSTANTS Xs, Ys,       \* coordinates of the lower-left corner
           RForms,       \* how /Rotate is written: "int", or "real" (90.0 - not allowed by ISO 32000-1 table 30)
           UserUnits,    \* /UserUnit values (1 = absent); nothing below reads it
           Crops,        \* /CropBox: "absent", "inside", "outside" (reaching beyond the MediaBox), "inside-urll"
+          Rotations,    \* the `rotation` argument of high_level.extract_text_to_fp (0 = the other entry points)
           Dev
 
 VARIABLES boxw, rraw, pt,                    \* input: MediaBox as written, Rotate as written, marker point
           rform, uu, cropw,                  \* input: spelling of Rotate, UserUnit, CropBox as written (<<>> = absent)
+          rotation,                          \* input: extract_text_to_fp(rotation=...)
           pc, mediabox, cropbox, rotate, ctm, bbox, mpt, fired
-vars == <<boxw, rraw, pt, rform, uu, cropw, pc, mediabox, cropbox, rotate, ctm, bbox, mpt, fired>>
+vars == <<boxw, rraw, pt, rform, uu, cropw, rotation, pc, mediabox, cropbox, rotate, ctm, bbox, mpt, fired>>
 
 Written(x, y, w, h, o) ==
   CASE o = "llur" -> <<x, y, x + w, y + h>>
@@ -55,10 +59,10 @@ Init == /\ \E x \in Xs, y \in Ys, w \in Ws, h \in Hs, o \in Orders, m \in Marks,
              /\ boxw = Written(x, y, w, h, o)
              /\ pt = <<x + m[1], y + m[2]>>
              /\ cropw = CropWritten(x, y, w, h, c)
-        /\ rraw \in Rotates /\ rform \in RForms /\ uu \in UserUnits
+        /\ rraw \in Rotates /\ rform \in RForms /\ uu \in UserUnits /\ rotation \in Rotations
         /\ pc = "box" /\ mediabox = <<>> /\ cropbox = <<>> /\ rotate = -1 /\ ctm = <<>> /\ bbox = <<>> /\ mpt = <<>> /\ fired = {}
 
-InSame == UNCHANGED <<boxw, rraw, pt, rform, uu, cropw>>
+InSame == UNCHANGED <<boxw, rraw, pt, rform, uu, cropw, rotation>>
 
 AParseBox ==
   /\ pc = "box"
@@ -80,7 +84,13 @@ AParseRotate ==
   /\ IF rform = "real" /\ "RealRotateIgnored" \in Dev
        THEN rotate' = RotNorm(0) /\ fired' = IF RotNorm(rraw) # 0 THEN fired \cup {"RealRotateIgnored"} ELSE fired
        ELSE rotate' = RotNorm(rraw) /\ fired' = fired
-  /\ pc' = "ctm" /\ UNCHANGED <<mediabox, cropbox, ctm, bbox, mpt>> /\ InSame
+  /\ pc' = "rotation" /\ UNCHANGED <<mediabox, cropbox, ctm, bbox, mpt>> /\ InSame
+
+\* high_level.extract_text_to_fp:  page.rotate = (page.rotate + rotation) % 360   (the other entry points: rotation = 0)
+AAddRotation ==
+  /\ pc = "rotation"
+  /\ rotate' = (rotate + rotation) % 360
+  /\ pc' = "ctm" /\ UNCHANGED <<mediabox, cropbox, ctm, bbox, mpt, fired>> /\ InSame
 
 SetCtm(m) == ctm' = m /\ pc' = "begin" /\ UNCHANGED <<mediabox, cropbox, rotate, bbox, mpt, fired>> /\ InSame
 ACtm90   == pc = "ctm" /\ rotate = 90  /\ SetCtm(Ctm90(mediabox))
@@ -99,16 +109,17 @@ ARenderMark ==
   /\ pc' = "done" /\ UNCHANGED <<mediabox, cropbox, rotate, ctm, bbox, fired>> /\ InSame
 
 Finished == pc = "done" /\ UNCHANGED vars
-Next == AParseBox \/ AParseCrop \/ AParseRotate \/ ACtm90 \/ ACtm180 \/ ACtm270 \/ ACtmElse \/ ABeginPage \/ ARenderMark \/ Finished
+Next == AParseBox \/ AParseCrop \/ AParseRotate \/ AAddRotation \/ ACtm90 \/ ACtm180 \/ ACtm270 \/ ACtmElse \/ ABeginPage \/ ARenderMark \/ Finished
 Spec == Init /\ [][Next]_vars
 
 \* ================================================================== the property (C04, geometry part)
 \* Rotate reduced to 0..359: the unique representative of its residue class
 \* (a Rotate written as a real number is outside the standard: only the range is claimed for it)
-RefRot == RotNorm(rraw)
-RotateRange == (pc \notin {"box", "crop", "rotate"}) =>
+\* with extract_text_to_fp(rotation=r) the page is laid out like a document that carries (Rotate + r) mod 360
+RefRot == RotNorm(rraw + rotation)
+RotateRange == (pc \notin {"box", "crop", "rotate", "rotation"}) =>
                  /\ rotate \in 0..359
-                 /\ "RealRotateIgnored" \notin fired => \E q \in -100..100 : rraw = rotate + 360 * q
+                 /\ "RealRotateIgnored" \notin fired => \E q \in -100..100 : rraw + rotation = rotate + 360 * q
 
 NB == Norm(boxw)
 W  == NB[3] - NB[1]
@@ -142,7 +153,7 @@ PageFromMediaBox == pc = "done" => (ctm = CtmFor(rotate, mediabox) /\ bbox = Beg
 
 EmitTerminal ==
   pc = "done" => PrintT("@@" \o ToJson([boxw |-> boxw, rraw |-> rraw, pt |-> pt, mediabox |-> mediabox,
-                                        rform |-> rform, uu |-> uu, cropw |-> cropw, cropbox |-> cropbox, refcrop |-> RefCrop,
+                                        rform |-> rform, uu |-> uu, cropw |-> cropw, rotation |-> rotation, cropbox |-> cropbox, refcrop |-> RefCrop,
                                         refrot |-> RefRot, rotate |-> rotate, ctm |-> ctm, bbox |-> bbox, mpt |-> mpt,
                                         fired |-> fired, applies |-> Applies, lands |-> (Applies /\ Lands),
                                         page |-> Page, reflin |-> IF Applies THEN RefLin ELSE <<>>, refpt |-> IF Applies THEN Turn(Quarter, Rel(pt), W, H) ELSE <<>>]))
